@@ -704,6 +704,10 @@ func runIngress(prop string, r *common.Rand, tier string, o *common.Out, replay 
 			for _, between := range []bool{false, true} {
 				k++
 				srvRefusedThenAuth(o, fmt.Sprintf("refauth%d", k), ow, between)
+				for _, opt := range []string{"pool", "async", "none", "none-pool"} {
+					k++
+					srvRefusedThenAuthOn(o, fmt.Sprintf("refauth%d", k), ow, between, opt)
+				}
 			}
 		}
 	}
